@@ -369,6 +369,11 @@ PPL::Grid::remove_higher_space_dimensions(const dimension_type new_dimension) {
       // TODO: Consider if it is worth also preserving the congruences
       //       if they are also in minimal form.
     }
+    else {
+      // Lines and parameters lying in the removed dimensions have become
+      // the origin, which is not a valid line or parameter.
+      gen_sys.remove_invalid_lines_and_parameters();
+    }
     clear_congruences_up_to_date();
     // Extend the zero dim false congruence system to the appropriate
     // dimension and then swap it with `con_sys'.
